@@ -61,7 +61,11 @@ node *node::create(const char *ident, int len)
 	if (!(n = create(need))) {
 		return 0;
 	}
-	n->ident.set_name(ident, len);
+	/* default arguments (no name, no length) leave the identifier empty */
+	if ((ident || len >= 0) && !n->ident.set_name(ident, len)) {
+		mpt_node_destroy(n);
+		return 0;
+	}
 	return n;
 }
 
